@@ -11,7 +11,7 @@ Site-by-site (each `unwrap/expect/unreachable!/assert!` of query.rs / directives
 * query.rs:523–525 — `makeFieldConnection_no_dirs`
 * query.rs:186 `unreachable!` — `parseOperationDefinition_panic` (only `root_items[1]`, query.rs:172,
   can fire, and only on an empty selection set, which the text grammar excludes)
-* query.rs:132 (F-6), :139, :172 — `tryGetQueryRoot_panic`
+* query.rs:132 (`nth(1)` since the fix of F-6), :139, :172 — `tryGetQueryRoot_panic`
 -/
 import TrustfallModel.Model.QueryParse
 namespace TF.FE
@@ -233,17 +233,7 @@ theorem transformGroupLoop_spec (l : List PDir) :
     | fold => simp [transformGroupLoop]
     | optional => simp [transformGroupLoop]
     | recurse r => simp [transformGroupLoop]
-    | transform =>
-      obtain ⟨hnp, hleft⟩ := ih [] [] []
-      simp only [transformGroupLoop]
-      cases hr : transformGroupLoop [] [] [] rest with
-      | panic s => exact absurd hr (hnp s)
-      | err e => simp
-      | ok p =>
-        obtain ⟨inner, left⟩ := p
-        have := hleft inner left hr
-        subst this
-        simp
+    | transform => simp [transformGroupLoop]
 
 theorem makeTransformGroup_noPanic (l : List PDir) : (makeTransformGroup l).NoPanic :=
   (transformGroupLoop_spec l [] [] []).1
@@ -435,11 +425,11 @@ def Doc.opCount (doc : Doc) : Nat :=
   | .single _ => 1
   | .multiple l => l.length
 
-/-- Where and when `try_get_query_root` panics. -/
+/-- Where and when `try_get_query_root` panics: only on structures the text grammar excludes
+(since the fix of F-6, `nth(1)` exists whenever the map has more than one entry). -/
 theorem tryGetQueryRoot_panic {doc : Doc} {s : Site} (h : tryGetQueryRoot doc = .panic s) :
     doc.frags = [] ∧
-    ((s = .opsNth2 ∧ doc.opCount = 2 ∧ ∃ l, doc.ops = .multiple l) ∨
-     (s = .opsMultipleEmpty ∧ doc.ops = .multiple []) ∨
+    ((s = .opsMultipleEmpty ∧ doc.ops = .multiple []) ∨
      (s = .rootItemsIndex ∧ ∃ op, doc.soleOperation? = some op ∧ op.sels = [])) := by
   unfold tryGetQueryRoot at h
   split at h
@@ -453,17 +443,14 @@ theorem tryGetQueryRoot_panic {doc : Doc} {s : Site} (h : tryGetQueryRoot doc = 
         split at h
         · cases h
         · rename_i hnone
-          cases h
-          left
-          refine ⟨rfl, ?_, mult, hops⟩
-          simp only [Doc.opCount, hops]
-          match mult, hlen, hnone with
-          | [_, _], _, _ => rfl
-          | _ :: _ :: _ :: _, _, hnone => simp at hnone
+          exfalso
+          rw [List.getElem?_eq_none_iff] at hnone
+          simp at hlen
+          omega
       · rename_i hlen
         split at h
         · rename_i n op hhead
-          right; right
+          right
           obtain ⟨hs, hsel⟩ := parseOperationDefinition_panic h
           refine ⟨hs, op, ?_, hsel⟩
           match mult, hlen, hhead with
@@ -473,11 +460,11 @@ theorem tryGetQueryRoot_panic {doc : Doc} {s : Site} (h : tryGetQueryRoot doc = 
           | _ :: _ :: _, hlen, _ => simp at hlen
         · rename_i hnone
           cases h
-          right; left
+          left
           simp [List.head?_eq_none_iff] at hnone
           exact ⟨rfl, by rw [hops, hnone]⟩
     · rename_i op hops
-      right; right
+      right
       obtain ⟨hs, hsel⟩ := parseOperationDefinition_panic h
       exact ⟨hs, op, by simp [Doc.soleOperation?, hops], hsel⟩
 
